@@ -521,3 +521,204 @@ Qed.
 Lemma from_timespec_utc_year t : -1000000000000000 <= t <= 1000000000000000 ->
   exists mo md h mi s, from_timespec t = Val (Ok (utc_year t, mo, md, h, mi, s)).
 Proof. intros Ht. rewrite <- fts_year_spec. exact (from_timespec_year t Ht). Qed.
+
+(* ------------------------------------------------------------------ *)
+(** * Wall clock -> candidates for a TZ string, against the oracle *)
+(** the oracle's DST predicate around year k, in terms of the two transitions of year k:
+    pure arithmetic over the transition instants of the years k-3 .. k+3 *)
+Lemma rule_is_dst_year_arith t k yt std dst
+  (S3 E3 S2 E2 S1 E1 S0 E0 Sn En Sn2 En2 En3 : Z) (y3 y2 y1 y0 yn yn2 yn3 : Z) :
+  -86400 < std < 86400 -> -86400 < dst < 86400 ->
+  (y3 + 86400 < S3 + std < y2 - 86400 /\ y3 + 86400 < S3 + dst < y2 - 86400 /\ y3 + 86400 < E3 + std < y2 - 86400 /\ y3 + 86400 < E3 + dst < y2 - 86400) ->
+  (y2 + 86400 < S2 + std < y1 - 86400 /\ y2 + 86400 < S2 + dst < y1 - 86400 /\ y2 + 86400 < E2 + std < y1 - 86400 /\ y2 + 86400 < E2 + dst < y1 - 86400) ->
+  (y1 + 86400 < S1 + std < y0 - 86400 /\ y1 + 86400 < S1 + dst < y0 - 86400 /\ y1 + 86400 < E1 + std < y0 - 86400 /\ y1 + 86400 < E1 + dst < y0 - 86400) ->
+  (y0 + 86400 < S0 + std < yn - 86400 /\ y0 + 86400 < S0 + dst < yn - 86400 /\ y0 + 86400 < E0 + std < yn - 86400 /\ y0 + 86400 < E0 + dst < yn - 86400) ->
+  (yn + 86400 < Sn + std < yn2 - 86400 /\ yn + 86400 < Sn + dst < yn2 - 86400 /\ yn + 86400 < En + std < yn2 - 86400 /\ yn + 86400 < En + dst < yn2 - 86400) ->
+  (yn2 + 86400 < Sn2 + std < yn3 - 86400 /\ yn2 + 86400 < Sn2 + dst < yn3 - 86400 /\ yn2 + 86400 < En2 + std < yn3 - 86400 /\ yn2 + 86400 < En2 + dst < yn3 - 86400) ->
+  S0 <> E0 -> (S1 <? E1) = (S0 <? E0) ->
+  (y0 <= t + std < yn \/ y0 <= t + dst < yn) ->
+  (* the four intervals the oracle looks at, for the three possible UTC years of t *)
+  forall b : bool,
+  (yt = k - 1 -> b = ((S3 <=? t) && (t <? (if S3 <? E3 then E3 else E2)) || (S2 <=? t) && (t <? (if S2 <? E2 then E2 else E1))
+                      || (S1 <=? t) && (t <? (if S1 <? E1 then E1 else E0)) || (S0 <=? t) && (t <? (if S0 <? E0 then E0 else En)))) ->
+  (yt = k -> b = ((S2 <=? t) && (t <? (if S2 <? E2 then E2 else E1)) || (S1 <=? t) && (t <? (if S1 <? E1 then E1 else E0))
+                  || (S0 <=? t) && (t <? (if S0 <? E0 then E0 else En)) || (Sn <=? t) && (t <? (if Sn <? En then En else En2)))) ->
+  (yt = k + 1 -> b = ((S1 <=? t) && (t <? (if S1 <? E1 then E1 else E0)) || (S0 <=? t) && (t <? (if S0 <? E0 then E0 else En))
+                      || (Sn <=? t) && (t <? (if Sn <? En then En else En2)) || (Sn2 <=? t) && (t <? (if Sn2 <? En2 then En2 else En3)))) ->
+  (yt = k - 1 \/ yt = k \/ yt = k + 1) ->
+  b = (if S0 <? E0 then (S0 <=? t) && (t <? E0) else (t <? E0) || (S0 <=? t)).
+Proof.
+  intros Hs Hd P3 P2 P1 P0 Pn Pn2 Hne Hreg Hl b H1 H2 H3 Hy.
+  destruct (S0 <? E0) eqn:B0;
+  destruct Hy as [Hy|[Hy|Hy]]; [rewrite (H1 Hy)|rewrite (H2 Hy)|rewrite (H3 Hy)|rewrite (H1 Hy)|rewrite (H2 Hy)|rewrite (H3 Hy)];
+  rewrite ?Hreg; clear H1 H2 H3;
+  destruct (S3 <? E3) eqn:?, (S2 <? E2) eqn:?, (Sn <? En) eqn:?, (Sn2 <? En2) eqn:?; lia.
+Qed.
+
+(** hypotheses on a rule around the naive year k *)
+Definition rule_year_hyps (r : srule) (k : Z) : Prop :=
+  -86400 < r_std r < 86400 /\ -86400 < r_dst r < 86400 /\
+  premise_year r (k - 3) = true /\ premise_year r (k - 2) = true /\ premise_year r (k - 1) = true /\
+  premise_year r k = true /\ premise_year r (k + 1) = true /\ premise_year r (k + 2) = true /\
+  (rule_start_utc r (k - 1) <? rule_end_utc r (k - 1)) = (rule_start_utc r k <? rule_end_utc r k).
+
+Lemma utc_year_near k t : year_start k - 86400 < t < year_start (k + 1) + 86400 ->
+  utc_year t = k - 1 \/ utc_year t = k \/ utc_year t = k + 1.
+Proof.
+  intros H. pose proof (utc_year_bounds t) as Hb. set (y := utc_year t) in *.
+  destruct (Z_lt_dec y (k - 1)) as [L|L].
+  { exfalso. assert (year_start (y + 1) <= year_start (k - 1)).
+    { clear - L. assert (forall n, 0 <= n -> year_start (y + 1) <= year_start (y + 1 + n)).
+      { intros n Hn. pattern n. apply natlike_ind; [rewrite Z.add_0_r; lia| |exact Hn].
+        intros x Hx IH. pose proof (year_start_succ (y + 1 + x)). replace (y + 1 + Z.succ x) with (y + 1 + x + 1) by lia. lia. }
+      specialize (H (k - 1 - (y + 1)) ltac:(lia)). replace (y + 1 + (k - 1 - (y + 1))) with (k - 1) in H by lia. exact H. }
+    pose proof (year_start_succ (k - 1)). replace (k - 1 + 1) with k in * by lia. lia. }
+  destruct (Z_lt_dec (k + 1) y) as [G|G].
+  { exfalso. assert (year_start (k + 2) <= year_start y).
+    { clear - G. assert (forall n, 0 <= n -> year_start (k + 2) <= year_start (k + 2 + n)).
+      { intros n Hn. pattern n. apply natlike_ind; [rewrite Z.add_0_r; lia| |exact Hn].
+        intros x Hx IH. pose proof (year_start_succ (k + 2 + x)). replace (k + 2 + Z.succ x) with (k + 2 + x + 1) by lia. lia. }
+      specialize (H (y - (k + 2)) ltac:(lia)). replace (k + 2 + (y - (k + 2))) with y in H by lia. exact H. }
+    pose proof (year_start_succ (k + 1)). replace (k + 1 + 1) with (k + 2) in * by lia. lia. }
+  lia.
+Qed.
+
+(* the oracle's DST predicate for an instant whose wall reading (on either clock) falls in year k *)
+Lemma rule_is_dst_year r k t : rule_year_hyps r k ->
+  (year_start k <= t + r_std r < year_start (k + 1) \/ year_start k <= t + r_dst r < year_start (k + 1)) ->
+  rule_is_dst r t =
+  (if rule_start_utc r k <? rule_end_utc r k
+   then (rule_start_utc r k <=? t) && (t <? rule_end_utc r k)
+   else (t <? rule_end_utc r k) || (rule_start_utc r k <=? t)).
+Proof.
+  intros (Hs & Hd & P3 & P2 & P1 & P0 & Pn & Pn2 & Hreg) Hl.
+  apply premise_year_prop in P3, P2, P1, P0, Pn, Pn2.
+  destruct P3 as [P3 _], P2 as [P2 _], P1 as [P1 _], P0 as [P0 N0], Pn as [Pn _], Pn2 as [Pn2 _].
+  replace (k - 3 + 1) with (k - 2) in * by lia. replace (k - 2 + 1) with (k - 1) in * by lia.
+  replace (k - 1 + 1) with k in * by lia. replace (k + 1 + 1) with (k + 2) in * by lia.
+  replace (k + 2 + 1) with (k + 3) in * by lia.
+  assert (Hnear : year_start k - 86400 < t < year_start (k + 1) + 86400) by lia.
+  pose proof (utc_year_near k t Hnear) as Hy.
+  apply (rule_is_dst_year_arith t k (utc_year t) (r_std r) (r_dst r)
+           (rule_start_utc r (k - 3)) (rule_end_utc r (k - 3)) (rule_start_utc r (k - 2)) (rule_end_utc r (k - 2))
+           (rule_start_utc r (k - 1)) (rule_end_utc r (k - 1)) (rule_start_utc r k) (rule_end_utc r k)
+           (rule_start_utc r (k + 1)) (rule_end_utc r (k + 1)) (rule_start_utc r (k + 2)) (rule_end_utc r (k + 2))
+           (rule_end_utc r (k + 3))
+           (year_start (k - 3)) (year_start (k - 2)) (year_start (k - 1)) (year_start k) (year_start (k + 1))
+           (year_start (k + 2)) (year_start (k + 3)) Hs Hd P3 P2 P1 P0 Pn Pn2 N0 Hreg Hl).
+  - intros E. rewrite rule_is_dst_unfold, E. cbv zeta.
+    replace (k - 1 - 2) with (k - 3) by lia. replace (k - 3 + 1) with (k - 2) by lia.
+    replace (k - 1 - 1) with (k - 2) by lia. replace (k - 2 + 1) with (k - 1) by lia.
+    replace (k - 1 + 1) with k by lia. replace (k + 1) with (k + 1) by lia. reflexivity.
+  - intros E. rewrite rule_is_dst_unfold, E. cbv zeta.
+    replace (k - 2 + 1) with (k - 1) by lia. replace (k - 1 + 1) with k by lia.
+    replace (k + 1 + 1) with (k + 2) by lia. reflexivity.
+  - intros E. rewrite rule_is_dst_unfold, E. cbv zeta.
+    replace (k + 1 - 2) with (k - 1) by lia. replace (k - 1 + 1) with k by lia.
+    replace (k + 1 - 1) with k by lia. replace (k + 1 + 1) with (k + 2) by lia. replace (k + 2 + 1) with (k + 3) by lia.
+    reflexivity.
+  - exact Hy.
+Qed.
+
+(* the year's two-transition table is at the oracle's offset, for such instants *)
+Lemma year_table_off a k t : rule_year_hyps (conv_rule a) k ->
+  let r := conv_rule a in
+  let '(ps, first) := year_table a k in
+  ordered (windows (offs ps) (ut_offset first)) = true ->
+  (year_start k <= t + r_std r < year_start (k + 1) \/ year_start k <= t + r_dst r < year_start (k + 1)) ->
+  table_off (offs ps) (ut_offset first) t = (if rule_is_dst r t then r_dst r else r_std r).
+Proof.
+  intros H r. pose proof (rule_is_dst_year r k t H) as Hd.
+  unfold year_table. fold r.
+  change (ut_offset (a_std a)) with (r_std r). change (ut_offset (a_dst a)) with (r_dst r).
+  set (S := rule_start_utc r k) in *. set (E := rule_end_utc r k) in *.
+  set (std := r_std r) in *. set (dst := r_dst r) in *.
+  destruct (S + std <? E + dst) eqn:Ho; cbn [offs map fst snd windows ordered table_off];
+    change (ut_offset (a_std a)) with std; change (ut_offset (a_dst a)) with dst;
+    intros Hord Hl; rewrite (Hd Hl).
+  - assert (S < E) by lia. replace (S <? E) with true by lia.
+    destruct (S <=? t) eqn:C1; cbn [andb].
+    + destruct (E <=? t) eqn:C2; [replace (t <? E) with false by lia|replace (t <? E) with true by lia]; reflexivity.
+    + reflexivity.
+  - assert (E < S) by lia. replace (S <? E) with false by lia.
+    destruct (E <=? t) eqn:C1.
+    + replace (t <? E) with false by lia. cbn [orb]. destruct (S <=? t); reflexivity.
+    + replace (t <? E) with true by lia. reflexivity.
+Qed.
+
+(** Full classification for a TZ string (rule-only zone): the answer of the rule code for a wall
+    reading of year k lists exactly the oracle's instants, earliest first *)
+Theorem rule_zone_classification z a first l :
+  let k := utc_year l in let r := conv_rule a in
+  transitions z = [] -> index (local_time_types z) 0 = Val first -> extra_rule z = Some (Alternate a) ->
+  alt_ok a -> -2147483650 <= k <= 2147483650 -> r_std r <> r_dst r -> rule_year_hyps r k ->
+  let '(ps, prev) := year_table a k in
+  ordered (windows (offs ps) (ut_offset prev)) = true ->
+  excepted_table (offs ps) (ut_offset prev) l = false ->
+  exists m, find_local_time_type_from_local z k l = Val (Ok m) /\
+  let S := instants_of_wall (mk_szone (ut_offset first) [] (Some (inr r))) l in
+  match m with
+  | MNone => S = []
+  | MSingle x => forall t, In t S <-> t = l - ut_offset x
+  | MAmbiguous x y => l - ut_offset x < l - ut_offset y /\
+                      forall t, In t S <-> t = l - ut_offset x \/ t = l - ut_offset y
+  end.
+Proof.
+  intros k r Ht Hf Hr Ha Hk Hne Hyp.
+  pose proof (from_local_rule_zone z a first k l Ht Hf Hr Ha Hk Hne) as Hm.
+  pose proof (fun t => year_table_off a k t Hyp) as Hoff. cbv zeta in Hoff. fold r in Hoff.
+  destruct (year_table a k) as [ps prev] eqn:Eyt. intros Hord Hex.
+  exists (table_answer ps prev l). split; [exact (Hm Hord Hex)|].
+  (* the year table is increasing *)
+  assert (Hinc : increasing (offs ps) = true).
+  { unfold year_table in Eyt. destruct (_ <? _) in Eyt; injection Eyt as <- <-;
+      cbn [offs map fst snd windows ordered increasing] in *; lia. }
+  pose proof (table_classification ps prev l Hinc Hord Hex) as Hc. cbv zeta in *.
+  pose proof (utc_year_bounds l) as Hlb. fold k in Hlb.
+  (* membership in S(l) = the table's [maps] *)
+  assert (Hvals : forall t, table_off (offs ps) (ut_offset prev) t = r_std r \/ table_off (offs ps) (ut_offset prev) t = r_dst r).
+  { intros t. unfold year_table in Eyt. destruct (_ <? _) in Eyt; injection Eyt as <- <-;
+      cbn [offs map fst snd table_off]; repeat match goal with |- context [if ?c then _ else _] => destruct c end; auto. }
+  assert (Hiff : forall t, In t (instants_of_wall (mk_szone (ut_offset first) [] (Some (inr r))) l)
+                           <-> maps (offs ps) (ut_offset prev) t l).
+  { intros t. rewrite instants_of_wall_spec. unfold zone_off. cbn [z_trans z_rule z_first last_trans rev rule_off].
+    unfold maps. split.
+    - intros [Hz _]. injection Hz as Hz.
+      change (ut_offset (a_dst a)) with (r_dst r) in Hz. change (ut_offset (a_std a)) with (r_std r) in Hz.
+      rewrite (Hoff t Hord); [lia|]. destruct (rule_is_dst r t); [right|left]; lia.
+    - intros Hmaps. assert (Hw : year_start k <= t + r_std r < year_start (k + 1) \/ year_start k <= t + r_dst r < year_start (k + 1)).
+      { destruct (Hvals t) as [E|E]; rewrite E in Hmaps; [left|right]; lia. }
+      change (ut_offset (a_dst a)) with (r_dst r). change (ut_offset (a_std a)) with (r_std r).
+      rewrite <- (Hoff t Hord Hw). split; [f_equal; lia|].
+      unfold zone_offsets. cbn [z_trans z_rule z_first map app]. rewrite In_dedup.
+      replace (l - t) with (table_off (offs ps) (ut_offset prev) t) by lia.
+      destruct (Hvals t) as [E|E]; rewrite E; cbn; auto. }
+  destruct (table_answer ps prev l) as [|x|x y].
+  - destruct (instants_of_wall _ l) as [|t rest] eqn:E; [reflexivity|].
+    exfalso. apply (Hc t). apply Hiff. left. reflexivity.
+  - destruct Hc as [Hx Hu]. intros t. rewrite Hiff. split; [apply Hu|intros ->; exact Hx].
+  - destruct Hc as (Hx & Hy & Hlt & Hu). split; [exact Hlt|]. intros t. rewrite Hiff.
+    split; [apply Hu|intros [->| ->]; assumption].
+Qed.
+
+(* the judge's excepted seconds cover those of the year table *)
+Lemma excepted_wall_year_table a first l :
+  let r := conv_rule a in
+  let '(ps, prev) := year_table a (utc_year l) in
+  excepted_wall (mk_szone first [] (Some (inr r))) l = false ->
+  excepted_table (offs ps) (ut_offset prev) l = false.
+Proof.
+  intros r. unfold year_table. fold r.
+  unfold excepted_wall, excepted_rule. cbn [z_trans z_first z_rule excepted_table orb].
+  set (y := utc_year l).
+  set (F := fun yy : Z => _).
+  assert (HF : existsb F [y - 2; y - 1; y; y + 1; y + 2] = false -> F y = false).
+  { intros H. destruct (F y) eqn:E; [|reflexivity]. rewrite <- H. symmetry. apply existsb_exists.
+    exists y. split; [cbn; auto|exact E]. }
+  change (ut_offset (a_std a)) with (r_std r). change (ut_offset (a_dst a)) with (r_dst r).
+  destruct (rule_start_utc r y + r_std r <? rule_end_utc r y + r_dst r); cbv beta iota; cbn [offs map fst snd excepted_table];
+    change (ut_offset (a_std a)) with (r_std r); change (ut_offset (a_dst a)) with (r_dst r);
+    intros H; apply HF in H; subst F; cbv beta in H;
+    set (S := rule_start_utc r y) in *; set (E := rule_end_utc r y) in *;
+    set (std := r_std r) in *; set (dst := r_dst r) in *; clearbody S E std dst; clear - H; lia.
+Qed.
